@@ -1056,9 +1056,9 @@ pub enum GuardFail {
 }
 
 /// Run `f(thread_index)` on `n` threads, each with its own current-thread tokio runtime.
-pub fn run_threads<F>(n: usize, f: F)
+pub fn run_threads<'a, F>(n: usize, f: F)
 where
-    F: Fn(usize) -> std::pin::Pin<Box<dyn std::future::Future<Output = ()>>> + Sync,
+    F: Fn(usize) -> std::pin::Pin<Box<dyn std::future::Future<Output = ()> + 'a>> + Sync,
 {
     std::thread::scope(|s| {
         for i in 0..n {
